@@ -227,3 +227,436 @@ Lemma suba_path_irrelevant_good : forall w p q s t,
 Proof.
   intros w p q s t Hok Gs Gt H. apply (SubE_SubA w Hok s t); auto. eapply SubA_SubE; eauto.
 Qed.
+
+(* ====================================================================== *)
+(* D3: transitivity on the boxed fragment                                 *)
+(* ====================================================================== *)
+
+(* ---------- lookups in mk_map under distinct parameter ids ---------- *)
+Lemma lookup_app : forall m1 m2 t,
+  lookup_sub (m1 ++ m2) t = match lookup_sub m1 t with Some r => Some r | None => lookup_sub m2 t end.
+Proof.
+  induction m1 as [|[k v] m1 IH]; intros m2 t; cbn; [reflexivity|].
+  destruct (py_eqb k t); [reflexivity|apply IH].
+Qed.
+
+Lemma py_eqb_tvar_id : forall k t, is_tvar_term k = true -> py_eqb k t = true -> tvar_id k = tvar_id t.
+Proof.
+  intros k t Hk H. destruct k; try discriminate. destruct t; try discriminate.
+  rewrite py_eqb_var in H. apply andb_prop in H. destruct H as [H _]. apply andb_prop in H.
+  destruct H as [H _]. apply Nat.eqb_eq in H. exact H.
+Qed.
+
+Lemma lookup_none : forall m t, (forall k v, In (k, v) m -> py_eqb k t = false) -> lookup_sub m t = None.
+Proof.
+  induction m as [|[k v] m IH]; intros t H; cbn; [reflexivity|].
+  rewrite (H k v (or_introl eq_refl)). apply IH. intros k' v' Hin. apply (H k' v'). right. exact Hin.
+Qed.
+
+Lemma lookup_rev : forall m t,
+  forallb is_tvar_term (map fst m) = true -> nodup_nat (map tvar_id (map fst m)) = true ->
+  lookup_sub (rev m) t = lookup_sub m t.
+Proof.
+  induction m as [|[k v] m IH]; intros t Ht Hn; [reflexivity|].
+  cbn [rev]. rewrite lookup_app. cbn in Ht, Hn.
+  apply andb_prop in Ht. destruct Ht as [Hk Ht]. apply andb_prop in Hn. destruct Hn as [Hn1 Hn2].
+  rewrite (IH t Ht Hn2). cbn [lookup_sub]. destruct (py_eqb k t) eqn:E.
+  - rewrite lookup_none; [reflexivity|].
+    intros k' v' Hin. destruct (py_eqb k' t) eqn:E'; [|reflexivity]. exfalso.
+    assert (Hk' : is_tvar_term k' = true).
+    { apply (forallb_In _ _ _ _ Ht). apply in_map_iff. exists (k', v'). auto. }
+    pose proof (py_eqb_tvar_id k t Hk E) as I1. pose proof (py_eqb_tvar_id k' t Hk' E') as I2.
+    apply negb_true_iff in Hn1.
+    assert (X : existsb (Nat.eqb (tvar_id k)) (map tvar_id (map fst m)) = true).
+    { apply existsb_exists. exists (tvar_id k'). split.
+      - apply in_map. apply in_map_iff. exists (k', v'). auto.
+      - apply Nat.eqb_eq. congruence. }
+    congruence.
+  - destruct (lookup_sub m t); reflexivity.
+Qed.
+
+Lemma map_fst_combine : forall (ps xs : list ty), length xs = length ps -> map fst (combine ps xs) = ps.
+Proof.
+  induction ps as [|p ps IH]; intros [|x xs] H; cbn in *; try discriminate; auto.
+  f_equal. apply IH. lia.
+Qed.
+
+Lemma lookup_mk_map_combine : forall ps xs t,
+  forallb is_tvar_term ps = true -> nodup_nat (map tvar_id ps) = true -> length xs = length ps ->
+  lookup_sub (mk_map ps xs) t = lookup_sub (combine ps xs) t.
+Proof.
+  intros ps xs t H1 H2 Hl. unfold mk_map. apply lookup_rev; rewrite map_fst_combine; auto.
+Qed.
+
+Lemma lookup_rel : forall R ps xs ys, ArgsRel R ps xs ys -> forall e, memb e ps = true ->
+  exists prm a b, In prm ps /\ py_eqb prm e = true /\
+    lookup_sub (combine ps xs) e = Some a /\ lookup_sub (combine ps ys) e = Some b /\
+    Arg1 R prm a b /\ In a xs /\ In b ys.
+Proof.
+  intros R ps xs ys H. induction H as [|prm ps a l1 b l2 H1 H IH]; intros e Hm; [discriminate|].
+  cbn [combine lookup_sub]. destruct (py_eqb prm e) eqn:E.
+  - exists prm, a, b. cbn. auto 10.
+  - cbn in Hm. rewrite py_eqb_sym, E in Hm. cbn in Hm.
+    destruct (IH e Hm) as [prm' [a' [b' [I1 [I2 [I3 [I4 [I5 [I6 I7]]]]]]]]].
+    exists prm', a', b'. cbn. auto 10.
+Qed.
+
+Lemma occurs_unfold : forall prm t,
+  occurs prm t = py_eqb prm t ||
+                 match t with
+                 | TApp _ l => existsb (occurs prm) l
+                 | TVar _ _ (Some b) => occurs prm b
+                 | TWild _ (Some b) => occurs prm b
+                 | _ => false
+                 end.
+Proof. intros prm t. destruct t; reflexivity. Qed.
+
+Definition vpo_args (w : world) (f : nat) (prm : ty) (pos : bool) :=
+  fix go (ps l : list ty) : bool :=
+    match ps, l with
+    | q :: ps', a :: l' =>
+        (match tvar_variance q with
+         | Cov => var_pos_ok w f prm pos a
+         | Contra => var_pos_ok w f prm (negb pos) a
+         | Inv => var_eqb (tvar_variance prm) Inv || negb (occurs prm a)
+         end) && go ps' l'
+    | _, _ => true
+    end.
+
+Lemma var_pos_ok_S : forall w f prm pos e,
+  var_pos_ok w (S f) prm pos e =
+  match e with
+  | TVar _ _ _ =>
+      if py_eqb e prm then
+        match tvar_variance prm with
+        | Inv => true
+        | Cov => pos
+        | Contra => negb pos
+        end
+      else true
+  | TApp c l =>
+      match find_class w c with
+      | None => false
+      | Some d => vpo_args w f prm pos (c_params d) l
+      end
+  | _ => true
+  end.
+Proof. intros. destruct e; reflexivity. Qed.
+
+Section Trans.
+  Variable w : world.
+  Hypothesis Hok : table_ok w = true.
+
+  Definition G (t : ty) : Prop := good1 w t = true /\ boxed t = true.
+
+  Lemma G_args : forall c args, G (TApp c args) -> forall a, In a args -> G a.
+  Proof.
+    intros c args [H1 H2] a Ha. split; [eapply good1_arg; eauto|eapply boxed_arg; eauto].
+  Qed.
+
+  Lemma G_inst : forall c d args s, G (TApp c args) -> find_class w c = Some d -> In s (c_supers d) ->
+    G (inst_super d args s).
+  Proof.
+    intros c d args s [H1 H2] Hd Hin. split.
+    - eapply good1_inst_super; eauto.
+    - apply (direct_supers_boxed w Hok (TApp c args)); auto. apply in_direct_supers_app; auto.
+  Qed.
+
+  Lemma G_class_super : forall c d s, G (TClass c) -> find_class w c = Some d -> In s (c_supers d) -> G s.
+  Proof.
+    intros c d s [H1 H2] Hd Hin. split.
+    - eapply good1_class_super; eauto.
+    - apply (direct_supers_boxed w Hok (TClass c)); auto. cbn [direct_supers]. rewrite Hd. exact Hin.
+  Qed.
+
+  Lemma G_builtin : forall b, G (TBuiltin b false).
+  Proof. intros b. split; reflexivity. Qed.
+
+  Lemma G_deq : forall a b, G a -> G b -> deq a b = true -> a = b.
+  Proof.
+    intros a b [Ga Ba] [Gb Bb] H. apply py_eqb_eq; auto. apply (good1_split _ _ Ga).
+  Qed.
+
+  (* derivations whose upper part consists of argument-containment steps only *)
+  Inductive Dp (L : ty -> ty -> Prop) : ty -> ty -> Prop :=
+  | Dp_refl x : Dp L x x
+  | Dp_leaf x y : L x y -> Dp L x y
+  | Dp_args c d xs ys :
+      find_class w c = Some d -> length xs = length (c_params d) -> length ys = length (c_params d) ->
+      ArgsRel (Dp L) (c_params d) xs ys -> Dp L (TApp c xs) (TApp c ys).
+
+  Section Mono.
+    Variable L : ty -> ty -> Prop.
+    Variables (ps xs ys : list ty).
+    Hypothesis Hps1 : forallb is_tvar_term ps = true.
+    Hypothesis Hps2 : nodup_nat (map tvar_id ps) = true.
+    Hypothesis HR : ArgsRel (Dp L) ps xs ys.
+    Hypothesis Gx : forall a, In a xs -> G a.
+    Hypothesis Gy : forall a, In a ys -> G a.
+
+    Let sx := subst false (mk_map ps xs).
+    Let sy := subst false (mk_map ps ys).
+
+    Lemma subst_var_rel : forall x v ob, memb (TVar x v ob) ps = true ->
+      exists prm a b, In prm ps /\ py_eqb prm (TVar x v ob) = true /\
+        sx (TVar x v ob) = a /\ sy (TVar x v ob) = b /\ Arg1 (Dp L) prm a b /\ G a /\ G b.
+    Proof.
+      intros x v ob Hm. destruct (ArgsRel_length _ _ _ _ HR) as [L1 L2].
+      destruct (lookup_rel _ _ _ _ HR _ Hm) as [prm [a [b [I1 [I2 [I3 [I4 [I5 [I6 I7]]]]]]]]].
+      exists prm, a, b. repeat split; auto.
+      - unfold sx. cbn [subst]. rewrite lookup_mk_map_combine, I3; auto.
+      - unfold sy. cbn [subst]. rewrite lookup_mk_map_combine, I4; auto.
+      - apply (Gx a I6).
+      - apply (Gx a I6).
+      - apply (Gy b I7).
+      - apply (Gy b I7).
+    Qed.
+
+    (* parameters that are invariant or absent do not distinguish the two substitutions *)
+    Lemma subst_agree : forall e, over_params ps e = true ->
+      (forall prm, In prm ps -> tvar_variance prm = Inv \/ occurs prm e = false) -> sx e = sy e.
+    Proof.
+      apply (ty_ind' (fun e => over_params ps e = true ->
+               (forall prm, In prm ps -> tvar_variance prm = Inv \/ occurs prm e = false) -> sx e = sy e));
+        intros; try discriminate; try reflexivity.
+      - unfold sx, sy. cbn [subst]. f_equal. cbn [over_params] in H0.
+        induction H as [|a l Ha Hl IH]; [reflexivity|]. cbn [map].
+        cbn in H0. apply andb_prop in H0. destruct H0 as [H01 H02].
+        assert (Hocc : forall prm, In prm ps -> tvar_variance prm = Inv \/
+                       (occurs prm a = false /\ occurs prm (TApp c l) = false)).
+        { intros prm Hin. destruct (H1 prm Hin) as [Hi|Ho]; [left; exact Hi|right].
+          rewrite occurs_unfold in Ho. apply orb_false_iff in Ho. destruct Ho as [Ho1 Ho2].
+          cbn in Ho2. apply orb_false_iff in Ho2. destruct Ho2 as [Ho2 Ho3]. split; [exact Ho2|].
+          rewrite occurs_unfold. rewrite Ho3.
+          pose proof (forallb_In _ _ _ _ Hps1 Hin) as Htv.
+          destruct prm; try discriminate Htv; reflexivity. }
+        f_equal.
+        + apply Ha; auto. intros prm Hin. destruct (Hocc prm Hin) as [Hi|[Ho _]]; auto.
+        + apply IH; auto. intros prm Hin. destruct (Hocc prm Hin) as [Hi|[_ Ho]]; auto.
+      - destruct (subst_var_rel x v None H) as [prm [a [b [I1 [I2 [I3 [I4 [I5 [I6 I7]]]]]]]]].
+        rewrite I3, I4. destruct (H0 prm I1) as [Hi|Ho].
+        + destruct I5 as [Hv He|Hv Hr|Hv Hr]; try congruence. apply G_deq; auto.
+        + rewrite occurs_unfold, I2 in Ho. discriminate.
+      - destruct (subst_var_rel x v (Some b) H0) as [prm [a [b' [I1 [I2 [I3 [I4 [I5 [I6 I7]]]]]]]]].
+        rewrite I3, I4. destruct (H1 prm I1) as [Hi|Ho].
+        + destruct I5 as [Hv He|Hv Hr|Hv Hr]; try congruence. apply G_deq; auto.
+        + rewrite occurs_unfold, I2 in Ho. discriminate.
+    Qed.
+
+    Lemma mono_subst : forall fuel e pos, over_params ps e = true -> arity_ok w e = true ->
+      (forall prm, In prm ps -> var_pos_ok w fuel prm pos e = true) ->
+      if pos then Dp L (sx e) (sy e) else Dp L (sy e) (sx e).
+    Proof.
+      induction fuel as [|f IH]; intros e pos Ho Ha Hv.
+      - destruct ps as [|prm0 ps'].
+        + inversion HR; subst. destruct pos; apply Dp_refl.
+        + specialize (Hv prm0 (or_introl eq_refl)). cbn in Hv. discriminate.
+      - destruct e as [b pr|c|c l|c|x v ob|v ob| |i uu ll]; try discriminate.
+        + destruct pos; apply Dp_refl.
+        + destruct pos; apply Dp_refl.
+        + cbn [arity_ok] in Ha. destruct (find_class w c) as [d|] eqn:Hd; [|discriminate].
+          apply andb_prop in Ha. destruct Ha as [Ha Ha2]. apply andb_prop in Ha. destruct Ha as [Hl _].
+          apply Nat.eqb_eq in Hl. cbn [over_params] in Ho.
+          assert (Hv' : forall prm, In prm ps -> vpo_args w f prm pos (c_params d) l = true).
+          { intros prm Hin. specialize (Hv prm Hin). rewrite var_pos_ok_S, Hd in Hv. exact Hv. }
+          assert (HA : forall qs l, length l = length qs -> forallb (over_params ps) l = true ->
+                       forallb (arity_ok w) l = true ->
+                       (forall prm, In prm ps -> vpo_args w f prm pos qs l = true) ->
+                       if pos then ArgsRel (Dp L) qs (map sx l) (map sy l)
+                       else ArgsRel (Dp L) qs (map sy l) (map sx l)).
+          { clear Hl Ho Ha2 Hv Hv'. clear l. induction qs as [|q qs IHq]; intros [|a l] Hlen Hov Har Hvp; try discriminate.
+            - destruct pos; constructor.
+            - cbn in Hov, Har, Hlen. apply andb_prop in Hov. destruct Hov as [Hov1 Hov2].
+              apply andb_prop in Har. destruct Har as [Har1 Har2].
+              assert (Hrest : if pos then ArgsRel (Dp L) qs (map sx l) (map sy l)
+                              else ArgsRel (Dp L) qs (map sy l) (map sx l)).
+              { apply IHq; auto. intros prm Hin. specialize (Hvp prm Hin). cbn in Hvp.
+                apply andb_prop in Hvp. apply Hvp. }
+              assert (Hhead : if pos then Arg1 (Dp L) q (sx a) (sy a) else Arg1 (Dp L) q (sy a) (sx a)).
+              { destruct (tvar_variance q) eqn:Hq.
+                - assert (E : sx a = sy a).
+                  { apply subst_agree; auto. intros prm Hin. specialize (Hvp prm Hin). cbn in Hvp.
+                    rewrite Hq in Hvp. apply andb_prop in Hvp. destruct Hvp as [Hvp _].
+                    apply orb_prop in Hvp. destruct Hvp as [Hvp|Hvp].
+                    - left. apply var_eqb_eq. exact Hvp.
+                    - right. apply negb_true_iff. exact Hvp. }
+                  rewrite E. destruct pos; apply Arg_Inv; auto; apply py_eqb_refl.
+                - assert (X : if pos then Dp L (sx a) (sy a) else Dp L (sy a) (sx a)).
+                  { apply IH; auto. intros prm Hin. specialize (Hvp prm Hin). cbn in Hvp.
+                    rewrite Hq in Hvp. apply andb_prop in Hvp. apply Hvp. }
+                  destruct pos; apply Arg_Cov; auto.
+                - assert (X : if negb pos then Dp L (sx a) (sy a) else Dp L (sy a) (sx a)).
+                  { apply IH; auto. intros prm Hin. specialize (Hvp prm Hin). cbn in Hvp.
+                    rewrite Hq in Hvp. apply andb_prop in Hvp. apply Hvp. }
+                  destruct pos; cbn in X; apply Arg_Contra; auto. }
+              destruct pos; cbn [map]; constructor; auto. }
+          specialize (HA (c_params d) l Hl Ho Ha2 Hv').
+          unfold sx, sy in *. cbn [subst].
+          destruct pos; eapply Dp_args; eauto; rewrite map_length; auto.
+        + cbn [over_params] in Ho.
+          destruct (subst_var_rel x v ob Ho) as [prm [a [b [I1 [I2 [I3 [I4 [I5 [I6 I7]]]]]]]]].
+          rewrite I3, I4. specialize (Hv prm I1). rewrite var_pos_ok_S in Hv.
+          rewrite py_eqb_sym, I2 in Hv.
+          destruct I5 as [Hq He|Hq Hr|Hq Hr]; rewrite Hq in Hv.
+          * rewrite (G_deq a b I6 I7 He). destruct pos; apply Dp_refl.
+          * subst pos. exact Hr.
+          * apply negb_true_iff in Hv. subst pos. exact Hr.
+    Qed.
+  End Mono.
+
+  Lemma mono_inst : forall L c d xs ys s, find_class w c = Some d -> In s (c_supers d) ->
+    ArgsRel (Dp L) (c_params d) xs ys -> (forall a, In a xs -> G a) -> (forall a, In a ys -> G a) ->
+    Dp L (inst_super d xs s) (inst_super d ys s).
+  Proof.
+    intros L c d xs ys s Hd Hin HR Gx Gy.
+    destruct (tok_params w Hok c d Hd) as [P1 P2].
+    destruct (tok_super w Hok c d s Hd Hin) as [Ho [Ha [_ [Hv _]]]].
+    apply (mono_subst L (c_params d) xs ys P1 P2 HR Gx Gy 20 s true Ho Ha).
+    intros prm Hprm. apply (forallb_In _ _ _ _ Hv Hprm).
+  Qed.
+
+  (* ---------- narrowing along Dp ---------- *)
+  Section Narrow.
+    Variable L : ty -> ty -> Prop.
+
+    Definition PrimalAt (m : nat) : Prop :=
+      forall x y W, Dp L x y -> SubH w m y W -> G x -> G y -> G W -> SubE w x W.
+    Definition DualAt (m : nat) : Prop :=
+      forall x y W, Dp L x y -> SubH w m W x -> G x -> G y -> G W -> SubE w W y.
+
+    Lemma args_primal : forall m, PrimalAt m -> DualAt m ->
+      forall ps xs ys ws, ArgsRel (Dp L) ps xs ys -> ArgsRel (SubH w m) ps ys ws ->
+      (forall a, In a xs -> G a) -> (forall a, In a ys -> G a) -> (forall a, In a ws -> G a) ->
+      ArgsRel (SubE w) ps xs ws.
+    Proof.
+      intros m HP HD ps xs ys ws H1. revert ws.
+      induction H1 as [|prm ps x xs y ys A1 H1 IH]; intros ws H2 Gx Gy Gw.
+      - inversion H2; subst. constructor.
+      - inversion H2 as [|prm' ps' y' ys' w0 ws' A2 H2']; subst.
+        assert (Gx0 : G x) by (apply Gx; left; reflexivity).
+        assert (Gy0 : G y) by (apply Gy; left; reflexivity).
+        assert (Gw0 : G w0) by (apply Gw; left; reflexivity).
+        constructor.
+        + destruct A1 as [V1 E1|V1 R1|V1 R1]; destruct A2 as [V2 E2|V2 R2|V2 R2]; try congruence.
+          * apply Arg_Inv; auto. rewrite (G_deq x y Gx0 Gy0 E1). exact E2.
+          * apply Arg_Cov; auto. apply (HP x y w0); auto.
+          * apply Arg_Contra; auto. apply (HD y x w0); auto.
+        + apply IH; auto; intros a Ha; [apply Gx|apply Gy|apply Gw]; right; exact Ha.
+    Qed.
+
+    Lemma args_dual : forall m, PrimalAt m -> DualAt m ->
+      forall ps xs ys ws, ArgsRel (Dp L) ps xs ys -> ArgsRel (SubH w m) ps ws xs ->
+      (forall a, In a xs -> G a) -> (forall a, In a ys -> G a) -> (forall a, In a ws -> G a) ->
+      ArgsRel (SubE w) ps ws ys.
+    Proof.
+      intros m HP HD ps xs ys ws H1. revert ws.
+      induction H1 as [|prm ps x xs y ys A1 H1 IH]; intros ws H2 Gx Gy Gw.
+      - inversion H2; subst. constructor.
+      - inversion H2 as [|prm' ps' w0 ws' x' xs' A2 H2']; subst.
+        assert (Gx0 : G x) by (apply Gx; left; reflexivity).
+        assert (Gy0 : G y) by (apply Gy; left; reflexivity).
+        assert (Gw0 : G w0) by (apply Gw; left; reflexivity).
+        constructor.
+        + destruct A1 as [V1 E1|V1 R1|V1 R1]; destruct A2 as [V2 E2|V2 R2|V2 R2]; try congruence.
+          * apply Arg_Inv; auto. rewrite <- (G_deq x y Gx0 Gy0 E1). exact E2.
+          * apply Arg_Cov; auto. apply (HD x y w0); auto.
+          * apply Arg_Contra; auto. apply (HP y x w0); auto.
+        + apply IH; auto; intros a Ha; [apply Gx|apply Gy|apply Gw]; right; exact Ha.
+    Qed.
+
+    Lemma narrow : forall m,
+      (forall x y W m', m' <= m -> L x y -> SubH w m' y W -> G x -> G y -> G W -> SubE w x W) ->
+      (forall x y W m', m' <= m -> L x y -> SubH w m' W x -> G x -> G y -> G W -> SubE w W y) ->
+      PrimalAt m /\ DualAt m.
+    Proof.
+      induction m as [|m IH]; intros LP LD.
+      - split; intros x y W _ H; inversion H.
+      - destruct IH as [HP HD].
+        { intros x y W m' Hm. apply LP. lia. }
+        { intros x y W m' Hm. apply LD. lia. }
+        split.
+        + intros x y W HDp H Gx Gy GW. destruct HDp as [x|x y HL|c d xs ys Hd L1 L2 HR].
+          * exists (S m). exact H.
+          * apply (LP x y W (S m)); auto.
+          * inversion H as [| | | | | |n0 c0 d0 args bargs Hd0 L1' L2' HR'
+                           |n0 c0 d0 args s0 t0 Hd0 L1' Hin Hs]; subst;
+              rewrite Hd in Hd0; injection Hd0 as <-.
+            -- apply (E_Args w c d xs bargs Hd L1 L2').
+               apply (args_primal m HP HD _ _ _ _ HR HR'); apply G_args with (c := c); auto.
+            -- apply (E_AUp w c d xs s0 W Hd L1 Hin).
+               apply (HP (inst_super d xs s0) (inst_super d ys s0) W); auto.
+               ++ apply (mono_inst L c d xs ys s0 Hd Hin HR); apply G_args with (c := c); auto.
+               ++ eapply G_inst; eauto.
+               ++ eapply G_inst; eauto.
+        + intros x y W HDp H Gx Gy GW. destruct HDp as [x|x y HL|c d xs ys Hd L1 L2 HR].
+          * exists (S m). exact H.
+          * apply (LD x y W (S m)); auto.
+          * inversion H as [n0 t0|n0 b pr t0 Hbot|n0 b pr pr'|n0 b b' t0 Hin Hs|n0 c0
+                           |n0 c0 d0 s0 t0 Hd0 Hin Hs|n0 c0 d0 args bargs Hd0 L1' L2' HR'
+                           |n0 c0 d0 args s0 t0 Hd0 L1' Hin Hs]; subst.
+            -- apply E_Nothing.
+            -- apply E_Bot; auto.
+            -- apply (E_BUp w b b' _ Hin).
+               apply (HD (TApp c xs) (TApp c ys)); auto; try (eapply Dp_args; eauto); try apply G_builtin.
+            -- apply (E_CUp w c0 d0 s0 _ Hd0 Hin).
+               apply (HD (TApp c xs) (TApp c ys)); auto; try (eapply Dp_args; eauto);
+                 try (eapply G_class_super; eauto).
+            -- rewrite Hd in Hd0. injection Hd0 as <-.
+               apply (E_Args w c d args ys Hd L1' L2).
+               apply (args_dual m HP HD _ _ _ _ HR HR'); apply G_args with (c := c); auto.
+            -- apply (E_AUp w c0 d0 args s0 _ Hd0 L1' Hin).
+               apply (HD (TApp c xs) (TApp c ys)); auto; try (eapply Dp_args; eauto);
+                 try (eapply G_inst; eauto).
+    Qed.
+  End Narrow.
+
+  Lemma SubH_trans : forall N n1 n2 a b c, n1 + n2 <= N -> G a -> G b -> G c ->
+    SubH w n1 a b -> SubH w n2 b c -> SubE w a c.
+  Proof.
+    induction N as [|N IH]; intros n1 n2 a b c Hn Ga Gb Gc H1 H2.
+    - assert (n1 = 0) by lia. subst. inversion H1.
+    - inversion H1 as [n0 t0|n0 b0 pr t0 Hbot|n0 b0 pr pr'|n0 b0 b' t0 Hin Hs|n0 c0
+                      |n0 c0 d0 s0 t0 Hd0 Hin Hs|n0 c0 d0 args bargs Hd0 L1 L2 HR
+                      |n0 c0 d0 args s0 t0 Hd0 L1 Hin Hs]; subst.
+      + apply E_Nothing.
+      + apply E_Bot; auto.
+      + destruct Ga as [_ Ba]. destruct Gb as [_ Bb]. cbn in Ba, Bb.
+        destruct pr; [discriminate|]. destruct pr'; [discriminate|]. exists n2. exact H2.
+      + apply (E_BUp w b0 b' c Hin). apply (IH n0 n2 _ b c); auto; try lia; try apply G_builtin.
+      + exists n2. exact H2.
+      + apply (E_CUp w c0 d0 s0 c Hd0 Hin). apply (IH n0 n2 _ b c); auto; try lia.
+        eapply G_class_super; eauto.
+      + destruct (narrow (SubH w n0) n2) as [HP _].
+        * intros x y W m' Hm HL HS Gx Gy GW. apply (IH n0 m' x y W); auto. lia.
+        * intros x y W m' Hm HL HS Gx Gy GW. apply (IH m' n0 W x y); auto. lia.
+        * apply (HP (TApp c0 args) (TApp c0 bargs) c); auto.
+          eapply Dp_args; eauto. eapply ArgsRel_impl; [|exact HR]. intros x y Hxy. apply Dp_leaf. exact Hxy.
+      + apply (E_AUp w c0 d0 args s0 c Hd0 L1 Hin). apply (IH n0 n2 _ b c); auto; try lia.
+        eapply G_inst; eauto.
+  Qed.
+End Trans.
+
+Lemma suba_trans_good : forall w p a b c, table_ok w = true ->
+  good1 w a = true -> good1 w b = true -> good1 w c = true ->
+  boxed a = true -> boxed b = true -> boxed c = true ->
+  SubA w p a b -> SubA w p b c -> SubA w p a c.
+Proof.
+  intros w p a b c Hok Ga Gb Gc Ba Bb Bc H1 H2.
+  destruct (SubA_SubE w Hok p a b H1 Ga Gb) as [n1 Hn1].
+  destruct (SubA_SubE w Hok p b c H2 Gb Gc) as [n2 Hn2].
+  apply (SubE_SubA w Hok a c); auto.
+  apply (SubH_trans w Hok (n1 + n2) n1 n2 a b c); auto; split; auto.
+Qed.
+
+Lemma suba_trans_pf_lem : forall w p a b c,
+  table_ok w = true -> plain_closed a = true -> plain_closed b = true -> plain_closed c = true ->
+  arity_ok w a = true -> arity_ok w b = true -> arity_ok w c = true ->
+  boxed a = true -> boxed b = true -> boxed c = true ->
+  SubA w p a b -> SubA w p b c -> SubA w p a c.
+Proof.
+  intros w p a b c Hok Pa Pb Pc Aa Ab Ac Ba Bb Bc.
+  apply suba_trans_good; auto; unfold good1.
+  - rewrite Pa, Aa. reflexivity.
+  - rewrite Pb, Ab. reflexivity.
+  - rewrite Pc, Ac. reflexivity.
+Qed.
